@@ -1,6 +1,11 @@
 package route
 
-import "github.com/cnotch/ipchub/zzverif/symapi"
+import (
+	"encoding/json"
+	"errors"
+
+	"github.com/cnotch/ipchub/zzverif/symapi"
+)
 
 type verifRProvider struct {
 	stored   []*Route
@@ -135,5 +140,48 @@ func VerifRouteFlushRace() {
 	t2 := &routetable{m: make(map[string]*Route)}
 	t2.Reset(&verifRProvider{stored: prov.stored})
 	symapi.Assert(t2.Get("/a") != nil && t2.Get("/b") != nil && len(t2.All()) == 2, "edit-during-a-flush-survives-the-restart")
+	symapi.Reach("end")
+}
+
+// In VerifRouteJSONLoad encoding/json.Unmarshal is replaced by this (reflection): the file
+// "decodes" to the routes the harness wrote.
+var verifFileRoutes []*Route
+
+func verifUnmarshalStub(data []byte, v interface{}) error {
+	p, ok := v.(*[]*Route)
+	if !ok {
+		return errors.New("unexpected JSON target")
+	}
+	*p = nil
+	for _, r := range verifFileRoutes {
+		c := *r
+		*p = append(*p, &c)
+	}
+	return nil
+}
+
+// VerifRouteJSONLoad (C18 / C17): a restarted server loads exactly the routes the file holds -
+// an exact pattern and the directory pattern of the same name are two routes - and resolves
+// paths against them as against the table that was flushed.
+func VerifRouteJSONLoad() {
+	all := []*Route{{Pattern: "/live/cam", URL: "rtsp://h/cam"}, {Pattern: "/live/cam/", URL: "rtsp://h/camdir"}, {Pattern: "/live/", URL: "rtsp://h/dir"}, {Pattern: "/a/b", URL: "rtsp://h/ab"}}
+	verifFileRoutes = nil
+	for i, r := range all {
+		if symapi.Bool("inFile" + string(rune('0'+i))) {
+			verifFileRoutes = append(verifFileRoutes, r)
+		}
+	}
+	p := &jsonProvider{filePath: symapi.TempPath("routes.json")}
+	data, _ := json.Marshal(verifFileRoutes)
+	symapi.SetFile(p.filePath, data)
+	got, err := p.LoadAll()
+	symapi.Assert(err == nil && len(got) == len(verifFileRoutes), "every-route-of-the-file-is-loaded")
+	t := &routetable{m: make(map[string]*Route)}
+	t.Reset(p)
+	for _, r := range verifFileRoutes {
+		g := t.Get(r.Pattern)
+		symapi.Assert(g != nil && g.URL == r.URL, "loaded-route-equals-the-stored-one")
+	}
+	symapi.Assert(len(t.All()) == len(verifFileRoutes), "table-size-equals-the-file")
 	symapi.Reach("end")
 }
